@@ -15,7 +15,13 @@ import os, sys, re, json, subprocess, shutil, glob
 ENV = dict(os.environ, GOFLAGS="-mod=mod", GOPROXY="off", GOSUMDB="off", GOTOOLCHAIN="local")
 
 
+NETNS = False
+
+
 def sh(cmd, cwd, timeout=1500):
+    if NETNS and cmd[0] == "go" and cmd[1] == "test":
+        import shlex
+        cmd = ["unshare", "-n", "sh", "-c", "ip link set lo up; " + " ".join(shlex.quote(c) for c in cmd)]
     p = subprocess.run(cmd, cwd=cwd, env=ENV, stdout=subprocess.PIPE, stderr=subprocess.STDOUT, text=True, timeout=timeout)
     return p.returncode, p.stdout
 
@@ -32,6 +38,10 @@ def main():
         if "--race" in a:
             a.remove("--race")
             opts["--race"] = True
+    if "--netns" in a:
+        a.remove("--netns")
+        global NETNS
+        NETNS = True
     mutdir, variant, pid, pkgdir, summary, needs = a
     repo = os.path.join(mutdir, "repo")
     out = os.path.join(mutdir, "out", variant)
